@@ -3,7 +3,7 @@ CONSTANTS
   Annots <- AnSmall
   OvChoices <- OvSmall
   DfChoices <- DfLong
-  SpChoices <- SpBoth
+  SpChoices <- SpNone
   BoundVals = {24}
   MaxFuncs = 2
   MaxParams = 2
